@@ -131,7 +131,8 @@ def mdp_predicates(box, EngineBase, tmpl, settings, out=None):
     # the property: appended settings are entries of their own — if the last template line lacks its newline
     # it is completed before the first appended setting (a regression of repair eaf64e1 glues them together)
     glued = bool(app) and bool(want) and not want[-1].endswith("\n")
-    sig = SIG_MDP_NL if glued else None
+    # the old signature names exactly the old defect: the output is the glued text of before the repair
+    sig = SIG_MDP_NL if glued and out == "".join(want + app) else None
     if glued:
         want[-1] = want[-1] + "\n"
     if ol != want + app:
